@@ -52,6 +52,7 @@ def cases(ctx):
                     yield 'strs', {'alpha': toks, 'len': L, 'start': start, 'count': BATCH, 'sep': sep}
                 b += 1
     n = 3000 if q else 40000
+    ctx.new_phase()
     for i in range(n):
         if not ctx.time_left():
             break
